@@ -560,6 +560,7 @@ def _verify_body(eng, contract, target, mod, cname, node, res, seed, timeout_ms,
         nm_ = '%s/%s.reach' % (tname, case.name)
         if not case.forbid and nm_ not in agg:
             add(nm_, [z3.BoolVal(False)], z3.BoolVal(False), 'reach', expect='refuted-somewhere')
+            agg[nm_]['dead'] = True
     # ---- discharge (fork-parallel): phase 1 bundles (obligations sharing their hypotheses, tried as one conjunction),
     # phase 2 the remaining obligations, each name handled entirely by one worker
     import os as _os
@@ -673,6 +674,9 @@ def _verify_body(eng, contract, target, mod, cname, node, res, seed, timeout_ms,
                 failed += 1
             ob = {'name': name, 'status': st, 'kind': item['kind'], 'backend': '+'.join(sorted(backend)) or 'syntactic',
                   'time_s': round(time.time() - t1, 4), 'paths': len(item['items']), 'tags': list(item['tags'])}
+            if item.get('dead'):
+                ob['status'] = 'dead-case'      # no path of the body realises this case of the contract
+                ob['paths'] = 0
             if 'why' in item:
                 ob['why'] = sorted(item['why'])
             if model_txt:
@@ -694,7 +698,7 @@ def _verify_body(eng, contract, target, mod, cname, node, res, seed, timeout_ms,
         got += part
     # merge the slices of one obligation: proved iff every slice is
     merged = {}
-    rank = {'refuted': 4, 'undecided': 3, 'vacuous': 2, 'skipped': 1, 'proved': 0}
+    rank = {'refuted': 4, 'undecided': 3, 'vacuous': 2, 'skipped': 1, 'dead-case': 0, 'proved': 0}
     for o in got:
         m = merged.get(o['name'])
         if m is None:
